@@ -151,29 +151,37 @@ Proof.
   unfold decode_seq. rewrite Nat2Z.id, decode_many_ann. reflexivity.
 Qed.
 
+Definition proj_plres (o : option (reslist * reslist)) : option (reslist * reslist) :=
+  match o with
+  | Some (rq, lm) => Some (proj_res rq RES_KEYS, proj_res lm RES_KEYS)
+  | None => None
+  end.
 Definition proj_pod (p : pod) : pod :=
   mkPod (proj_labels (p_labels p) LABEL_KEYS) (p_prio p) EmptyString
         (map proj_container (p_init p)) (map proj_container (p_ctrs p))
-        (proj_res (p_overhead p) RES_KEYS) (p_ann p).
+        (proj_res (p_overhead p) RES_KEYS) (proj_plres (p_plres p)) (p_ann p) [].
+
+Lemma dec_obs_plres_enc o r : dec_obs_plres (enc_plres o ++ r) = (proj_plres o, r).
+Proof.
+  destruct o as [[rq lm]|]; unfold enc_plres, dec_obs_plres, enc_reslist; cbn [app];
+    rewrite <- app_assoc, dec_obs_reslist_enc, dec_obs_reslist_enc; reflexivity.
+Qed.
 
 Lemma dec_obs_pod_enc p r : dec_obs_pod (enc_pod p ++ r) = (proj_pod p, r).
 Proof.
   unfold dec_obs_pod, enc_pod. rewrite <- !app_assoc.
   rewrite dec_obs_labels_enc, dec_opt_enc, decode_seq_containers, decode_seq_containers.
-  unfold enc_reslist. rewrite dec_obs_reslist_enc, dec_obs_ann_enc. reflexivity.
+  unfold enc_reslist at 1. rewrite dec_obs_reslist_enc, dec_obs_plres_enc, dec_obs_ann_enc. reflexivity.
 Qed.
 
 (* ---------- the decision procedure cannot tell a pod from its projection ---------- *)
 Lemma In_keys_res k : In k KEYS -> In k RES_KEYS.
 Proof. auto. Qed.
 
-Lemma pclass_labels_ext l l' pr s i c o a :
+Lemma pclass_labels_ext l l' pr s i c o pl a oa :
   lget K_QOS l' = lget K_QOS l -> lget K_PCLASS l' = lget K_PCLASS l ->
-  pclass_with_default (mkPod l' pr s i c o a) = pclass_with_default (mkPod l pr s i c o a).
-Proof.
-  intros Q C. unfold pclass_with_default, pclass_raw, qos_with_default, qos_raw, qos_of_kube, kube_best_effort.
-  cbn [p_labels p_prio p_status_qos p_init p_ctrs]. rewrite Q, C. reflexivity.
-Qed.
+  pclass_with_default (mkPod l' pr s i c o pl a oa) = pclass_with_default (mkPod l pr s i c o pl a oa).
+Proof. intros Q C. apply pclass_ext; cbn; auto. Qed.
 
 Lemma forallb2_map_r {A B} (f g : A -> B -> bool) (h : B -> B) l1 l2 :
   (forall a b, f a (h b) = g a b) -> forallb2 f l1 (map h l2) = forallb2 g l1 l2.
@@ -221,7 +229,11 @@ Proof.
   { unfold with_identity, proj_pod. cbn [p_labels p_prio].
     apply pclass_labels_ext; apply lget_proj; try apply nodup_label_keys;
       unfold LABEL_KEYS, K_QOS, K_PCLASS; cbn; auto. }
-  rewrite W. cbn [proj_pod p_init p_ctrs p_overhead].
+  rewrite W. cbn [proj_pod p_init p_ctrs p_overhead p_plres].
+  f_equal.
+  { unfold plres_sameb, proj_plres. destruct (p_plres pin) as [[r1 l1]|], (p_plres p1) as [[r2 l2]|]; try reflexivity.
+    apply forallb_ext_in. intros k Hk.
+    rewrite !rget_proj by (try apply nodup_res_keys; apply In_keys_res; exact Hk). reflexivity. }
   destruct (en && tier_class (pclass_with_default (with_identity p1 pin))).
   - rewrite !(forallb2_map_r _ _ _ _ _ (container_translatedb_proj _)).
     f_equal. apply forallb_ext_in. intros k Hk.
@@ -238,18 +250,6 @@ Lemma mutate_code_proj en noext pin p1 :
 Proof. unfold mutate_code. rewrite resources_okb_proj, ann_okb_proj. reflexivity. Qed.
 
 (* ---------- re-admission as Create, up to labels outside the identity ---------- *)
-Lemma pclass_ext p q :
-  p_status_qos q = p_status_qos p -> p_init q = p_init p -> p_ctrs q = p_ctrs p ->
-  p_prio q = p_prio p ->
-  lget K_QOS (p_labels q) = lget K_QOS (p_labels p) ->
-  lget K_PCLASS (p_labels q) = lget K_PCLASS (p_labels p) ->
-  pclass_with_default q = pclass_with_default p.
-Proof.
-  intros S I C P Q L.
-  unfold pclass_with_default, pclass_raw, qos_with_default, qos_raw, qos_of_kube, kube_best_effort.
-  rewrite S, I, C, P, Q, L. reflexivity.
-Qed.
-
 Lemma translate_set_labels cls l p : translate_pod cls (set_labels l p) = set_labels l (translate_pod cls p).
 Proof. unfold translate_pod. destruct (seqb cls PriorityNone || seqb cls PriorityProd); reflexivity. Qed.
 
@@ -260,20 +260,10 @@ Proof.
   destruct (p_ann p); try reflexivity. destruct (build_spec 0 (p_ctrs p)); reflexivity.
 Qed.
 
-(* an admitted pod is a fixed point of the translation for its own class *)
-Lemma admitted_fixed e ps p p1 :
-  admit_pod e OP_CREATE ps p = Some p1 -> translating e ps p = true ->
-  translate_pod (pclass_with_default p1) p1 = p1.
-Proof.
-  unfold admit_pod. cbn [OP_CREATE Z.eqb].
-  destruct (profile_step e ps p) as [q1|] eqn:S1; [|discriminate]. intros X1 TR.
-  destruct (profile_step_shape e ps p q1 S1) as (p' & _ & E1). rewrite TR in E1.
-  destruct (extspec_is_set_ann e q1 p1 X1) as (a & Ea). rewrite Ea.
-  rewrite pclass_set_ann, translate_set_ann. f_equal. rewrite E1. apply translated_fixed.
-Qed.
-
-Lemma set_labels_of_body p q : same_body p q -> p_prio q = p_prio p -> q = set_labels (p_labels q) p.
-Proof. intros (B1 & B2 & B3 & B4 & B5) P. destruct p, q; cbn in *; subst; reflexivity. Qed.
+Lemma set_labels_of_body p q :
+  same_body p q -> p_prio q = p_prio p -> p_ann q = p_ann p ->
+  q = set_oann (p_oann q) (set_labels (p_labels q) p).
+Proof. intros (B1 & B2 & B3 & B4 & B5) P A. destruct p, q; cbn in *; subst; reflexivity. Qed.
 
 Lemma readmit_create_sem e ps p p1 p3 :
   admit_pod e OP_CREATE ps p = Some p1 ->
@@ -282,30 +272,31 @@ Lemma readmit_create_sem e ps p p1 p3 :
   lget K_PCLASS (p_labels p3) = lget K_PCLASS (p_labels p1) ->
   p_prio p3 = p_prio p1 ->
   translating e ps p1 = translating e ps p ->
-  p3 = set_labels (p_labels p3) p1.
+  touches_summary e ps p1 = false ->
+  p3 = set_oann (p_oann p3) (set_labels (p_labels p3) p1).
 Proof.
-  intros A1 A3 Q C P TR.
+  intros A1 A3 Q C P TR TS.
   pose proof (readmit_update e ps p p1 A1) as U.
   unfold admit_pod in U. cbn [OP_CREATE OP_UPDATE Z.eqb Pos.eqb] in U.
   pose proof (admitted_fixed e ps p p1 A1) as FX.
   unfold admit_pod in A3. cbn [OP_CREATE Z.eqb] in A3.
   destruct (profile_step e ps p1) as [q3|] eqn:S3; [|discriminate].
-  destruct (profile_step_shape e ps p1 q3 S3) as (p'' & B'' & E3).
-  destruct (extspec_shape e q3 p3 A3) as (L3 & P3 & _).
-  assert (Lq : p_labels q3 = p_labels p'' /\ p_prio q3 = p_prio p'').
-  { rewrite E3. destruct (translating e ps p1); [|split; reflexivity].
-    destruct (translate_pod_identity (pclass_with_default p'') p'') as (A & B & _). split; assumption. }
-  destruct Lq as [Lq Pq].
-  assert (Hp'' : p'' = set_labels (p_labels p'') p1).
-  { apply set_labels_of_body; [exact B''|congruence]. }
+  destruct (profile_step_shape_ann e ps p1 q3 S3 TS) as (p'' & B'' & AN & E3).
+  destruct (extspec_shape e q3 p3 A3) as (L3 & P3 & _ & _ & _ & _ & _ & _ & _ & O3).
+  assert (Lq : p_labels q3 = p_labels p'' /\ p_prio q3 = p_prio p'' /\ p_oann q3 = p_oann p'').
+  { rewrite E3. destruct (translating e ps p1); [|repeat split; reflexivity].
+    destruct (translate_pod_identity (pclass_with_default p'') p'') as (A & B & _).
+    destruct (translate_pod_frame (pclass_with_default p'') p'') as (_ & X3). repeat split; assumption. }
+  destruct Lq as (Lq & Pq & Oq).
+  assert (Hp'' : p'' = set_oann (p_oann p'') (set_labels (p_labels p'') p1)).
+  { apply set_labels_of_body; [exact B''|congruence|exact AN]. }
   assert (Hc : pclass_with_default p'' = pclass_with_default p1).
-  { destruct B'' as (B1 & B2 & B3 & _). apply pclass_ext; congruence. }
-  assert (Hq3 : q3 = set_labels (p_labels p'') p1).
+  { destruct B'' as (B1 & B2 & B3 & B4 & B5). apply pclass_ext; congruence. }
+  assert (Hq3 : q3 = set_oann (p_oann p'') (set_labels (p_labels p'') p1)).
   { rewrite E3, TR. destruct (translating e ps p) eqn:T; [|exact Hp''].
-    rewrite Hc. rewrite Hp'' at 1. rewrite translate_set_labels, (FX eq_refl). reflexivity. }
-  rewrite Hq3, extspec_set_labels, U in A3. cbn [option_map] in A3. inversion A3 as [A3'].
-  cbn [set_labels p_labels]. rewrite <- Lq, <- L3. rewrite <- A3' at 2. cbn [set_labels p_labels].
-  rewrite L3, Lq. reflexivity.
+    rewrite Hc. rewrite Hp'' at 1. rewrite translate_set_oann, translate_set_labels, (FX eq_refl). reflexivity. }
+  rewrite Hq3, extspec_set_oann, extspec_set_labels, U in A3. cbn [option_map] in A3. inversion A3 as [A3'].
+  cbn [set_oann set_labels p_oann p_labels]. reflexivity.
 Qed.
 
 (* ---------- the stream theorem ---------- *)
@@ -355,7 +346,7 @@ Qed.
 Lemma enc_pod_set_labels l p :
   (forall k, In k LABEL_KEYS -> lget k l = lget k (p_labels p)) -> enc_pod (set_labels l p) = enc_pod p.
 Proof.
-  intros H. unfold enc_pod. cbn [set_labels p_labels p_prio p_init p_ctrs p_overhead p_ann].
+  intros H. unfold enc_pod. cbn [set_labels p_labels p_prio p_init p_ctrs p_overhead p_plres p_ann].
   f_equal. apply flat_map_ext_in'. intros k Hk. apply enc_label_ext. apply H. exact Hk.
 Qed.
 
@@ -394,34 +385,60 @@ Proof.
   intros pf Hin. apply profile_matches_proj. rewrite forallb_forall in H. apply H. exact Hin.
 Qed.
 
+Lemma judge_create_model e ps p p1 :
+  admit_pod e OP_CREATE ps p = Some p1 -> judge_create e ps p (enc_result (Some p1)) = 0.
+Proof.
+  intros A1. cbn [enc_result judge_create zb Z.eqb negb].
+  pose proof (dec_obs_pod_enc p1 []) as D. rewrite app_nil_r in D. rewrite D.
+  rewrite mutate_code_proj. apply (create_code_zero KEYS e ps p p1 A1).
+Qed.
+
+Lemma touches_summary_proj e ps p :
+  forallb sel_key_ok ps = true -> touches_summary e ps (proj_pod p) = touches_summary e ps p.
+Proof.
+  intros H. unfold touches_summary.
+  rewrite (filter_ext_in' (profile_matches e (proj_pod p)) (profile_matches e p)); [reflexivity|].
+  intros pf Hin. apply profile_matches_proj. rewrite forallb_forall in H. apply H. exact Hin.
+Qed.
+
 Theorem mutate_stream_holds inp : wf_mutate inp = true -> prop_mutate inp (run_mutate inp) = 0.
 Proof.
   unfold wf_mutate, prop_mutate, run_mutate.
   destruct (untag TAG_MUTATE inp) as [body|]; [|reflexivity].
   unfold prop_mutate_body, run_mutate_body.
   destruct (dec_mutate body) as [[e ps] p]. intros WF.
+  assert (HC : handle_pod e OP_CREATE ps p = admit_pod e OP_CREATE ps p) by reflexivity.
+  rewrite HC.
   destruct (admit_pod e OP_CREATE ps p) as [p1|] eqn:A1.
-  - rewrite (readmit_update e ps p p1 A1).
-    rewrite (take_list_encode (enc_result (Some p1))
-               (encode_list (enc_result (Some p1)) ++ encode_list (enc_result (admit_pod e OP_CREATE ps p1)))).
-    cbn [enc_result zb Z.eqb negb].
+  - assert (HU : handle_pod e OP_UPDATE ps p1 = Some p1) by reflexivity.
+    rewrite HU, (readmit_update e ps p p1 A1).
+    pose proof (judge_create_model e ps p p1 A1) as J.
+    set (E3 := enc_result (admit_pod e OP_CREATE ps p1)).
+    set (E1 := enc_result (Some p1)) in *.
+    rewrite (take_list_encode E1 (encode_list E1 ++ encode_list E1 ++ encode_list E3 ++ encode_list E1)).
+    rewrite (take_list_encode E1 (encode_list E1 ++ encode_list E3 ++ encode_list E1)).
+    rewrite J. cbn [Z.eqb negb].
+    rewrite (take_list_encode E1 (encode_list E3 ++ encode_list E1)).
+    rewrite (take_list_encode E3 (encode_list E1)).
+    pose proof (take_list_encode E1 []) as T5. rewrite app_nil_r in T5. rewrite T5.
+    subst E1. cbn [enc_result].
     pose proof (dec_obs_pod_enc p1 []) as D. rewrite app_nil_r in D. rewrite D.
-    rewrite mutate_code_proj, (create_code_zero KEYS e ps p p1 A1). cbn [Z.eqb negb].
-    change (0 :: 0 :: 0 :: enc_pod p1) with (enc_result (Some p1)).
-    rewrite (take_list_encode (enc_result (Some p1)) (encode_list (enc_result (admit_pod e OP_CREATE ps p1)))).
-    pose proof (take_list_encode (enc_result (admit_pod e OP_CREATE ps p1)) []) as T3.
-    rewrite app_nil_r in T3. rewrite T3.
-    cbn [enc_result]. rewrite (proj2 (Bool.negb_false_iff _) (eq_listZ_refl' _)).
+    rewrite (proj2 (Bool.negb_false_iff _) (eq_listZ_refl' _)).
+    subst E3.
     destruct (admit_pod e OP_CREATE ps p1) as [p3|] eqn:A3; cbn [enc_result]; [|reflexivity].
     pose proof (dec_obs_pod_enc p3 []) as D3. rewrite app_nil_r in D3. rewrite D3.
-    rewrite !identity_enc_proj, translating_proj by exact WF.
+    rewrite !identity_enc_proj, translating_proj, touches_summary_proj by exact WF.
     destruct (eq_listZ (identity_enc p3) (identity_enc p1)) eqn:EI; cbn [andb]; [|reflexivity].
-    destruct (Bool.eqb (translating e ps p1) (translating e ps p)) eqn:ET; [|reflexivity].
+    destruct (Bool.eqb (translating e ps p1) (translating e ps p)) eqn:ET; cbn [andb]; [|reflexivity].
+    destruct (touches_summary e ps p1) eqn:TS; cbn [negb]; [reflexivity|].
     apply eq_listZ_eq in EI. apply Bool.eqb_prop in ET.
     destruct (identity_enc_inj p3 p1 EI) as [HL HP].
-    assert (E3 : p3 = set_labels (p_labels p3) p1).
+    assert (E3 : p3 = set_oann (p_oann p3) (set_labels (p_labels p3) p1)).
     { apply (readmit_create_sem e ps p p1 p3 A1 A3); try assumption;
         apply HL; unfold LABEL_KEYS, K_QOS, K_PCLASS; cbn; auto. }
-    rewrite E3, (enc_pod_set_labels (p_labels p3) p1 HL), eq_listZ_refl'. reflexivity.
-  - pose proof (take_list_encode (enc_result None) []) as T. rewrite app_nil_r in T. rewrite T. reflexivity.
+    rewrite E3. change (enc_pod (set_oann (p_oann p3) (set_labels (p_labels p3) p1)))
+      with (enc_pod (set_labels (p_labels p3) p1)).
+    rewrite (enc_pod_set_labels (p_labels p3) p1 HL), eq_listZ_refl'. reflexivity.
+  - rewrite (take_list_encode (enc_result None) (encode_list (enc_result None))).
+    pose proof (take_list_encode (enc_result None) []) as T. rewrite app_nil_r in T. rewrite T. reflexivity.
 Qed.
